@@ -32,6 +32,8 @@ def run(tier, seed):
             kind = rng.choice(["mem", "fs", "fs_cache"])
             r = R.Runner(m, scratch, R.make_storage(kind, scratch, "p%d" % pi))
             c1, c2 = rng.sample([0, 1, 2, 3], 2)
+            if pi % 3 == 2:
+                c1, c2 = rng.sample([1, 4, 5], 2)        # context arguments equal for Python (1, True, 1.0), different once normalized
             subs = R.subcalls(prog, root, c1)
             pre = [s for s in subs if rng.random() < 0.3]
             for (k, c) in pre:
